@@ -11,7 +11,7 @@ form together with the linear constraints of the path.  Obligations, per path:
   constants: nsync_time_zero = (0,0); nsync_time_no_deadline = (max time_t, 1e9-1).
 Both the C file (platform/posix/src/time_rep.c, internal/time_internal.c) and the C++ sibling (platform/c++11/src/time_rep_timespec.cc) are checked."""
 from .. import ir as IR
-from ..affine import Evaluator, Aff, Path
+from ..affine import Evaluator, Aff, Path, Inexact
 from ..report import Violation, AnalysisBroken
 
 NS = 1000000000
@@ -70,12 +70,23 @@ def check(ctx, rep, RID, addsub=(('nsync_time_add', 1), ('nsync_time_sub', -1)))
             return f
         def where(f):
             return '%s:%d in %s' % (IR.rel(f.file), f.line, f.srcname)
+        def run_exact(rid, f, args, ranges):
+            """paths of f in closed form - or, if f computes with floating point, a violation (a double cannot be exact over 64 bits) and no paths"""
+            try:
+                return ev.run(f, args, ranges)
+            except Inexact as e:
+                rep.instance(rid, '%s %s: %s' % (tag, f.srcname, e)); rep.oblig(rid, False)
+                rep.violate(Violation(rid, e.inst.where(), '%s %s computes with floating point (%s): a double has a 53-bit mantissa, so results are not exact - times that differ by less than the rounding step compare equal / convert to a neighbouring value - over the 64-bit range the property quantifies over' % (tag, f.srcname, e),
+                                      site='%s/%s-floating-point' % (f.srcname, cfgname)))
+                return None
         # ---- add / sub
         for name, sign in (addsub if R1 else ()):
             f = fn_of(name)
             A = [Aff({'a.sec': 1}), Aff({'a.nsec': 1}), Aff({'b.sec': 1}), Aff({'b.nsec': 1})]
             ranges = {'a.sec': (SEC_LO, SEC_HI), 'b.sec': (SEC_LO, SEC_HI), 'a.nsec': (0, NS - 1), 'b.nsec': (0, NS - 1)}
-            paths = ev.run(f, A, ranges)
+            paths = run_exact(R1, f, A, ranges)
+            if paths is None:
+                continue
             if not paths:
                 raise AnalysisBroken('C18: %s has no feasible path' % name)
             for p, rv in paths:
@@ -102,7 +113,7 @@ def check(ctx, rep, RID, addsub=(('nsync_time_add', 1), ('nsync_time_sub', -1)))
             f = fn_of('nsync_time_cmp')
             A = [Aff({'a.sec': 1}), Aff({'a.nsec': 1}), Aff({'b.sec': 1}), Aff({'b.nsec': 1})]
             ranges = {'a.sec': I64, 'b.sec': I64, 'a.nsec': I64, 'b.nsec': I64}
-            paths = ev.run(f, A, ranges)
+            paths = run_exact(R2, f, A, ranges) or []
             for p, rv in paths:
                 msgs = [m for _, m in p.issues]
                 d1 = p.interval(A[0] - A[2])
@@ -133,7 +144,9 @@ def check(ctx, rep, RID, addsub=(('nsync_time_add', 1), ('nsync_time_sub', -1)))
             for name, unit in (('nsync_time_ms', 1000000), ('nsync_time_us', 1000)):
                 f = fn_of(name)
                 x = Aff({'x': 1})
-                paths = ev.run(f, [x], {'x': (0, (1 << 32) - 1)})
+                paths = run_exact(R3, f, [x], {'x': (0, (1 << 32) - 1)})
+                if paths is None:
+                    continue
                 for p, rv in paths:
                     msgs = [m for _, m in p.issues]
                     if not (isinstance(rv, tuple) and len(rv) == 2):
@@ -152,7 +165,7 @@ def check(ctx, rep, RID, addsub=(('nsync_time_add', 1), ('nsync_time_sub', -1)))
                         rep.violate(Violation(R3, where(f), '%s %s: %s' % (tag, name, m), site='%s/%s-exact' % (f.srcname, cfgname)))
             f = fn_of('nsync_time_s_ns')
             s_, n_ = Aff({'s': 1}), Aff({'ns': 1})
-            for p, rv in ev.run(f, [s_, n_], {'s': I64, 'ns': (0, (1 << 32) - 1)}):
+            for p, rv in (run_exact(R3, f, [s_, n_], {'s': I64, 'ns': (0, (1 << 32) - 1)}) or []):
                 ok = isinstance(rv, tuple) and rv[0] == s_ and rv[1] == n_ and not p.issues
                 rep.instance(R3, '%s nsync_time_s_ns -> %s' % (tag, rv))
                 rep.oblig(R3, ok)
